@@ -245,6 +245,43 @@ func C09(c *Ctx) {
 			st := in.(*ssa.Store)
 			_, f, _, ok := core.FieldOf(st.Val)
 			r.Check(ok && f == "currentBlockHash", "R09.3", "processExecuteEvent: ParentHash source", c.P.Pos(in.Pos()), "ParentHash = exec.currentBlockHash", "the parent hash is not taken from the executor's last block hash")
+			// the value is read where it is current: no call that re-points the head (rollbackBlocks) lies between the
+			// load of exec.currentBlockHash and the store into the header
+			load, isLoad := core.Strip(st.Val).(*ssa.UnOp)
+			if !ok || f != "currentBlockHash" || !isLoad {
+				continue
+			}
+			writes := map[*ssa.Function]bool{}
+			for changed := true; changed; {
+				changed = false
+				for _, g := range c.P.ModuleFuncs(true) {
+					if core.PkgOf(g) != "internal/executor" || writes[g] || len(g.Blocks) == 0 {
+						continue
+					}
+					w := len(sites(g, storesToField("BlockExecutor", "currentBlockHash"))) > 0
+					for _, call := range core.Calls(g) {
+						if h := core.StaticCallee(call); h != nil && writes[h] {
+							w = true
+						}
+					}
+					if w {
+						writes[g], changed = true, true
+					}
+				}
+			}
+			stale := ""
+			fromLoad := core.Reach([]core.Point{core.After(load)}, nil, nil)
+			for _, call := range core.Calls(pe) {
+				h := core.StaticCallee(call)
+				if h == nil || !writes[h] || !fromLoad.Has(call) {
+					continue
+				}
+				if core.Reach([]core.Point{core.After(call)}, nil, nil).Has(in) {
+					stale = shortFn(h) + " (" + c.P.Pos(call.Pos()) + ")"
+				}
+			}
+			r.Check(stale == "", "R09.3", "processExecuteEvent: ParentHash read after the head was re-pointed", c.P.Pos(load.Pos()), "no writer of currentBlockHash is called between the read and the store into the header",
+				"exec.currentBlockHash is read at "+c.P.Pos(load.Pos())+", then "+stale+" may re-point the head (rollback of already executed blocks), and the stale value is stored as ParentHash: the re-executed block is linked to the discarded head instead of the block below it")
 		}
 		n := 0
 		for _, fn := range c.P.ModuleFuncs(true) {
